@@ -20,6 +20,7 @@ type Profile struct {
 	PTextArg                                                                                       float64 // probability that a generated command carries an inline text
 	PMovesArg                                                                                      float64
 	PFormat                                                                                        float64 // of inline texts, fraction wrapped in format()
+	NoFormatParams                                                                                 bool    // format() calls never carry explicit parameters
 	PTyped                                                                                         float64 // of texts, fraction with a string type prefix
 	RichArgs                                                                                       bool    // multi-token / odd-token arguments
 	PEmptyBody                                                                                     float64
@@ -36,7 +37,7 @@ type Profile struct {
 	NoRedundantPar                                                                                 bool
 	PoryKeys                                                                                       []string
 	TextPool                                                                                       []string
-	NoSharedResultVar, ASCIINames, NoEmptyArgs, SingleTokenOperands, MultiTokenCases                                  bool
+	NoSharedResultVar, ASCIINames, NoEmptyArgs, SingleTokenOperands, MultiTokenCases               bool
 	PFallback                                                                                      float64 // probability that a poryswitch has a `_` case (default 0.5)
 	WCondGoto                                                                                      int     // weight of user-written goto_if_set/goto_if_unset commands (targets: labels of the same script)
 	PCall                                                                                          float64 // probability that a command statement is `call(<external script>)`
@@ -215,8 +216,63 @@ func (g *Gen) Text() *TextVal {
 	}
 	if g.chance(g.P.PFormat) {
 		t.Format = &Format{}
+		if !g.P.NoFormatParams && g.R.IntN(5) < 2 {
+			g.formatParams(t.Format)
+		}
 	}
 	return t
+}
+
+// formatParams gives a format() call explicit parameters: the two unnamed ones (font id and maximum line
+// length, in either order) and/or named ones, in any order, with an optional trailing comma.
+func (g *Gen) formatParams(f *Format) {
+	font := []string{"1_latin_rse", "1_latin_frlg"}[g.R.IntN(2)]
+	width := []int{40, 80, 100, 208, 300}[g.R.IntN(5)]
+	lines := 1 + g.R.IntN(4)
+	cursor := []int{5, 10, 20}[g.R.IntN(3)]
+	q := func(s string) string { return `"` + s + `"` }
+	named := []string{"fontId", "maxLineLength", "numLines", "cursorOverlapWidth"}
+	switch g.R.IntN(6) {
+	case 0:
+		f.Params, f.FontID = []string{",", q(font)}, font
+		named = named[2:]
+	case 1:
+		f.Params, f.MaxLineLength = []string{",", strconv.Itoa(width)}, width
+		named = named[2:]
+	case 2:
+		f.Params, f.FontID, f.MaxLineLength = []string{",", q(font), ",", strconv.Itoa(width)}, font, width
+		named = named[2:]
+	case 3:
+		f.Params, f.FontID, f.MaxLineLength = []string{",", strconv.Itoa(width), ",", q(font)}, font, width
+		named = named[2:]
+	default:
+		f.Params = []string{","}
+	}
+	g.R.Shuffle(len(named), func(i, j int) { named[i], named[j] = named[j], named[i] })
+	n := g.R.IntN(len(named) + 1)
+	if len(f.Params) == 1 && n == 0 {
+		n = 1
+	}
+	for i, nm := range named[:n] {
+		if len(f.Params) > 1 {
+			if i > 0 || f.Params[len(f.Params)-1] != "," {
+				f.Params = append(f.Params, ",")
+			}
+		}
+		switch nm {
+		case "fontId":
+			f.Params, f.FontID = append(f.Params, nm, "=", q(font)), font
+		case "maxLineLength":
+			f.Params, f.MaxLineLength = append(f.Params, nm, "=", strconv.Itoa(width)), width
+		case "numLines":
+			f.Params, f.NumLines = append(f.Params, nm, "=", strconv.Itoa(lines)), lines
+		default:
+			f.Params, f.CursorWidth = append(f.Params, nm, "=", strconv.Itoa(cursor)), cursor
+		}
+	}
+	if n > 0 && g.R.IntN(6) == 0 {
+		f.Params = append(f.Params, ",") // a trailing comma after a named parameter is allowed
+	}
 }
 
 var stepPool = []string{"walk_left", "walk_right", "walk_up", "walk_down", "face_player", "delay_16", "jump_2_left"}
@@ -954,7 +1010,7 @@ func (g *Gen) ListWithPory(maxLen int, movement bool, depth int) []*ListElem {
 			}
 			e.Comma = g.R.IntN(4) == 0
 		} else {
-			e.Name = []string{"ITEM_POTION", "ITEM_POKE_BALL", "ITEM_RARE_CANDY", "ITEM_LEMONADE", "ITEM_NONE", "ITEM_X"}[g.R.IntN(6)]
+			e.Name = []string{"ITEM_POTION", "ITEM_POKE_BALL", "ITEM_RARE_CANDY", "ITEM_LEMONADE", "ITEM_NONE", "ITEM_X", "DECOR_PIKA_CUSHION", "DECOR_NONE"}[g.R.IntN(8)]
 			if e.Name == "ITEM_NONE" && g.R.IntN(3) != 0 {
 				e.Name = "ITEM_REPEL"
 			}
